@@ -318,15 +318,23 @@ def check_generator(r, rule, q, families, alphabet_default="pyrepseq.io.aminoaci
         rep.ob(rule, q, cnt == 1, f"exactly one enumeration block yields {kind} edits", where, expected="1 yield", found=f"{cnt} yield(s)", key=f"{kind} block count")
 
 
+def generator_rules(r, pre=""):
+    """The two one-edit generators are exact (each string at distance 1 once, nothing else) - run for dependent properties too."""
+    r.rep.trust("DESIGN Appendix A.3: the canonical one-edit enumeration lists every string at distance exactly 1 once")
+    check_generator(r, pre + "C12-LEV", D + "levenshtein_neighbors", {
+        "DEL": {"positions": "n", "positions_text": "0 .. len(x)-1"}, "SUB": {"positions": "n", "positions_text": "0 .. len(x)-1"}, "INS": {"positions": "n+1", "positions_text": "0 .. len(x)"}})
+    check_generator(r, pre + "C12-HAM", D + "hamming_neighbors", {"SUB": {"positions": "vp", "positions_text": "variable_positions, default range(len(x))"}})
+    r.rep.floor(pre + "C12-LEV", 14)
+    r.rep.floor(pre + "C12-HAM", 5)
+
+
 def run(r):
     rep = r.rep
     rep.explanation = "Every yield of the two generators was normalised to an edit term with its domains and guard; the set utilities and nested enumerations were compared loop-closed with the specification."
     rep.trust("DESIGN Appendix A.3: the canonical one-edit enumeration lists every string at distance exactly 1 once", "DESIGN Appendix A.4: breadth-first ball / nested substitution enumeration")
     # purity first: cheap, robust, and a recorded violation takes precedence over a later 'cannot decide'
     check_pure_params(r, "C12-PURE", [D + n for n in ("levenshtein_neighbors", "hamming_neighbors", "next_nearest_neighbors", "find_neighbor_pairs", "find_neighbor_pairs_index", "calculate_neighbor_numbers", "isdist1", "nndist_hamming")])
-    check_generator(r, "C12-LEV", D + "levenshtein_neighbors", {
-        "DEL": {"positions": "n", "positions_text": "0 .. len(x)-1"}, "SUB": {"positions": "n", "positions_text": "0 .. len(x)-1"}, "INS": {"positions": "n+1", "positions_text": "0 .. len(x)"}})
-    check_generator(r, "C12-HAM", D + "hamming_neighbors", {"SUB": {"positions": "vp", "positions_text": "variable_positions, default range(len(x))"}})
+    generator_rules(r)
     eq = Equiv(rewrites=std_rewrites() + [canon_binders], modelled={"builtins.set", "builtins.sorted", "builtins.list", "builtins.range", "builtins.enumerate"})
     for name, what in (("next_nearest_neighbors", "every string within maxdistance neighbourhood steps except x: maxdistance-1 further rounds, each expanding the previous round"),
                        ("find_neighbor_pairs", "each unordered neighbour pair once: set(neighborhood(x)) & reference with x removed from the reference after its visit"),
